@@ -13,7 +13,7 @@ func VerifC04Prec() {
 	rhs := make([]Sym, k)
 	for i := range rhs {
 		s := nondetInt()
-		verifAssume(s >= 1 && s < verifC04T+2)
+		verifAssume(s >= -2 && s < verifC04T+2 && s != 0) // negative values are state markers (.name), which occupy no input
 		rhs[i] = Sym(s)
 	}
 	prec := nondetInt()
@@ -48,7 +48,7 @@ func VerifC04Prec() {
 	rp := prec
 	if rp == 0 {
 		for i := 0; i < k; i++ { // last terminal of the rule
-			if s := int(rhs[i]); s < verifC04T {
+			if s := int(rhs[i]); s > 0 && s < verifC04T {
 				rp = s
 			}
 		}
